@@ -444,6 +444,7 @@ impl Property for C13 {
             replicate: false,
             crash: false,
             ops: false,
+            damaged_sync: ctx.ch.chance(1, 3),
             verifiable: true,
             requests_per_client: if long { 6 + ctx.ch.index(5) } else { 1 + ctx.ch.index(3) },
             inputs: inputs(ctx),
